@@ -359,6 +359,7 @@ func checkC13(p *Prog, r *Report) {
 		})
 		r.Cond(ok, "C13/RULES-SENT", "ClientRun sends filter rules before the list terminator", p.Pos(entry.Pos()), "rules loop / terminator / ReceiveFileList ordering not established")
 	}
+	checkListFraming(p, r, "C13/LIST-FRAMING")
 	_ = nP
 	r.Uncovered("string semantics of the match (pattern == filepath.Base(name)), anchored patterns, rule grammar beyond the three prefixes")
 	r.Assume("foreign code calls only function values and interface methods it was handed")
